@@ -18,36 +18,36 @@ theorem forallM_eq_not_exists {β : Type} (g : β → Except Err Bool) (l : List
     | error e => rfl
     | ok r => cases r <;> simp [Except.map, bind, Except.bind, ih, pure, Except.pure]
 
-theorem semEvery_eq_not_semSome : ∀ (bs : Binds) (c : Ctx) (test : Ctx → Except Err Bool),
-    semEvery bs c test = (semSome bs c (fun c' => (test c').map not)).map not
+theorem semEvery_eq_not_semSome (sm : Summation) : ∀ (bs : Binds) (c : Ctx) (test : Ctx → Except Err Bool),
+    semEvery sm bs c test = (semSome sm bs c (fun c' => (test c').map not)).map not
   | .one x e, c, test => by
     simp only [semEvery, semSome]
-    cases Spec.sem e c with
+    cases Spec.sem sm e c with
     | error err => rfl
     | ok s => exact forallM_eq_not_exists _ s
   | .cons x e rest, c, test => by
     simp only [semEvery, semSome]
-    cases Spec.sem e c with
+    cases Spec.sem sm e c with
     | error err => rfl
     | ok s =>
       simp only [bind, Except.bind]
-      have : (fun v => semEvery rest (bind1 c x v) test)
-          = fun v => (semSome rest (bind1 c x v) (fun c' => (test c').map not)).map not := by
-        funext v; exact semEvery_eq_not_semSome rest (bind1 c x v) test
+      have : (fun v => semEvery sm rest (bind1 c x v) test)
+          = fun v => (semSome sm rest (bind1 c x v) (fun c' => (test c').map not)).map not := by
+        funext v; exact semEvery_eq_not_semSome sm rest (bind1 c x v) test
       rw [this, forallM_eq_not_exists]
       congr 2
       funext v
-      cases semSome rest (bind1 c x v) (fun c' => (test c').map not) with
+      cases semSome sm rest (bind1 c x v) (fun c' => (test c').map not) with
       | error e => rfl
       | ok b => cases b <;> rfl
 
-theorem sem_every_not_some_not (bs : Binds) (t : Expr) (c : Ctx) :
-    Spec.sem (.everyE bs t) c = Spec.sem (.fn1 .not_ (.someE bs (.fn1 .not_ t))) c := by
+theorem sem_every_not_some_not (sm : Summation) (bs : Binds) (t : Expr) (c : Ctx) :
+    Spec.sem sm (.everyE bs t) c = Spec.sem sm (.fn1 .not_ (.someE bs (.fn1 .not_ t))) c := by
   simp only [Spec.sem, semEvery_eq_not_semSome]
-  have : (fun c' => ((Spec.sem t c').bind Spec.ebv).map not)
-      = (fun c' => ((Spec.sem t c').bind (Spec.applyFn1 .not_)).bind Spec.ebv) := by
+  have : (fun c' => ((Spec.sem sm t c').bind Spec.ebv).map not)
+      = (fun c' => ((Spec.sem sm t c').bind (Spec.applyFn1 sm c'.doc .not_)).bind Spec.ebv) := by
     funext c'
-    cases Spec.sem t c' with
+    cases Spec.sem sm t c' with
     | error e => rfl
     | ok v =>
       simp only [Except.bind, Spec.applyFn1]
@@ -55,7 +55,7 @@ theorem sem_every_not_some_not (bs : Binds) (t : Expr) (c : Ctx) :
       | error e => rfl
       | ok b => cases b <;> rfl
   rw [this]
-  cases semSome bs c (fun c' => ((Spec.sem t c').bind (Spec.applyFn1 .not_)).bind Spec.ebv) with
+  cases semSome sm bs c (fun c' => ((Spec.sem sm t c').bind (Spec.applyFn1 sm c'.doc .not_)).bind Spec.ebv) with
   | error e => rfl
   | ok b => cases b <;> rfl
 
@@ -117,52 +117,94 @@ theorem keepWhere_pure {β : Type} (q : β → Bool) (l : List β) :
 
 /-! ### distinct-values: the constraints of F&O §14.2.1 -/
 
-theorem eqD_refl_of_not_nan (d : D) (h : d ≠ .nan) : eqD d d := by
-  cases d <;> simp_all [eqD]
+theorem XV.eqv_refl_q (n : Int) (d : Nat) : XV.eqv (.q n d) (.q n d) = true := by simp [XV.eqv]
 
-theorem sameValue_refl (a : Atom) : sameValue a a = true := by
-  unfold sameValue
+theorem numEq_refl (a : Atom) (hk : kind a = .num) (hn : a ≠ .dbl .nan) : numEq a a = true := by
   cases a with
-  | dbl d =>
-    by_cases h : d = .nan
-    · subst h; simp
-    · simp [eqAtom?, kind, numVal, eqD_refl_of_not_nan d h]
-  | int n => simp [eqAtom?, kind, numVal, eqD]
-  | str s => simp [eqAtom?]
-  | bool b => simp [eqAtom?]
+  | int n => simp [numEq, isDouble, exact, XV.eqv]
+  | dec m k => simp [numEq, isDouble, exact, XV.eqv]
+  | dbl d => cases d <;> simp_all [numEq, isDouble, eqD, toDouble, D.val, XV.eqv]
+  | _ => simp [kind] at hk
 
-theorem distinct_sublist (xs : Seq) : List.Sublist (Spec.distinctValues xs) xs := by
-  induction xs with
-  | nil => exact List.Sublist.slnil
-  | cons x xs ih =>
-    simp only [Spec.distinctValues]
-    exact List.Sublist.cons₂ x ((List.filter_sublist).trans ih)
+theorem sameValue_refl (a : Atom) (hnode : kind a ≠ .node) : sameValue a a = true := by
+  unfold sameValue
+  by_cases hn : a = .dbl .nan
+  · subst hn; simp
+  · cases a with
+    | node i => simp [kind] at hnode
+    | int n => simp [eqAtom?, kind, numEq_refl (.int n) rfl (by simp)]
+    | dec m k => simp [eqAtom?, kind, numEq_refl (.dec m k) rfl (by simp)]
+    | dbl d => simp [eqAtom?, kind, numEq_refl (.dbl d) rfl hn]
+    | str s => simp [eqAtom?, kind]
+    | untyped s => simp [eqAtom?, kind]
+    | bool b => simp [eqAtom?, kind]
 
-theorem distinct_pairwise (xs : Seq) :
-    List.Pairwise (fun a b => sameValue a b = false) (Spec.distinctValues xs) := by
+theorem distinctFrom_sublist (xs : Seq) : ∀ kept, List.Sublist (Spec.distinctFrom kept xs) xs := by
   induction xs with
-  | nil => exact List.Pairwise.nil
+  | nil => intro kept; exact List.Sublist.slnil
   | cons x xs ih =>
-    simp only [Spec.distinctValues]
-    apply List.Pairwise.cons
-    · intro y hy
-      have := (List.mem_filter.mp hy).2
-      simpa using this
-    · exact ih.sublist List.filter_sublist
+    intro kept
+    simp only [Spec.distinctFrom]
+    split
+    · exact (ih kept).cons x
+    · exact (ih _).cons₂ x
 
-theorem distinct_covers (xs : Seq) : ∀ z ∈ xs, ∃ y ∈ Spec.distinctValues xs, sameValue y z = true := by
+/-- no result equals a value kept before it (in particular no two results are equal) -/
+theorem distinctFrom_fresh (xs : Seq) : ∀ kept, ∀ r ∈ Spec.distinctFrom kept xs, ∀ k ∈ kept, sameValue k r = false := by
   induction xs with
-  | nil => intro z hz; cases hz
+  | nil => intro kept r hr; cases hr
   | cons x xs ih =>
-    intro z hz
-    simp only [Spec.distinctValues]
-    rcases List.mem_cons.mp hz with h | h
-    · subst h; exact ⟨z, List.mem_cons_self, sameValue_refl z⟩
-    · obtain ⟨y, hy, hyz⟩ := ih z h
-      by_cases hxy : sameValue x y = true
-      · exact ⟨x, List.mem_cons_self, sameValue_trans hxy hyz⟩
-      · refine ⟨y, List.mem_cons_of_mem _ (List.mem_filter.mpr ⟨hy, ?_⟩), hyz⟩
-        simp [hxy]
+    intro kept r hr k hk
+    simp only [Spec.distinctFrom] at hr
+    split at hr
+    · exact ih kept r hr k hk
+    · rename_i hnot
+      rcases List.mem_cons.mp hr with h | h
+      · subst h
+        cases hs : sameValue k r with
+        | false => rfl
+        | true => exact absurd (List.any_eq_true.mpr ⟨k, hk, hs⟩) hnot
+      · exact ih _ r h k (List.mem_append_left _ hk)
+
+theorem distinctFrom_pairwise (xs : Seq) : ∀ kept,
+    List.Pairwise (fun a b => sameValue a b = false) (Spec.distinctFrom kept xs) := by
+  induction xs with
+  | nil => intro kept; exact List.Pairwise.nil
+  | cons x xs ih =>
+    intro kept
+    simp only [Spec.distinctFrom]
+    split
+    · exact ih kept
+    · apply List.Pairwise.cons
+      · intro r hr
+        exact distinctFrom_fresh xs (kept ++ [x]) r hr x (List.mem_append_right _ List.mem_cons_self)
+      · exact ih _
+
+theorem distinctFrom_covers (xs : Seq) (hnode : ∀ z ∈ xs, kind z ≠ .node) : ∀ kept, ∀ z ∈ xs,
+    ∃ y ∈ kept ++ Spec.distinctFrom kept xs, sameValue y z = true := by
+  induction xs with
+  | nil => intro kept z hz; cases hz
+  | cons x xs ih =>
+    intro kept z hz
+    have ih' := ih (fun z hz => hnode z (List.mem_cons_of_mem _ hz))
+    simp only [Spec.distinctFrom]
+    split
+    · rename_i hseen
+      rcases List.mem_cons.mp hz with h | h
+      · subst h
+        obtain ⟨y, hy, hyz⟩ := List.any_eq_true.mp hseen
+        exact ⟨y, List.mem_append_left _ hy, hyz⟩
+      · exact ih' kept z h
+    · rcases List.mem_cons.mp hz with h | h
+      · subst h
+        exact ⟨z, List.mem_append_right _ List.mem_cons_self, sameValue_refl z (hnode z List.mem_cons_self)⟩
+      · obtain ⟨y, hy, hyz⟩ := ih' (kept ++ [x]) z h
+        refine ⟨y, ?_, hyz⟩
+        simp only [List.mem_append, List.mem_cons, List.not_mem_nil, or_false] at hy ⊢
+        rcases hy with (hy | hy) | hy
+        · exact Or.inl hy
+        · exact Or.inr (Or.inl hy)
+        · exact Or.inr (Or.inr hy)
 
 /-! ### min / max on integers: the result is an upper (lower) bound that occurs in the input -/
 
@@ -197,21 +239,35 @@ theorem extremum_int_max (b : Int) (xs : List Int) :
           · have := hb b List.mem_cons_self; omega
           · exact hb y (List.mem_cons_of_mem _ h'')
 
-theorem filterMap_int_map (ns : List Int) : (ns.map Atom.int).filterMap Atom.int? = ns := by
-  induction ns with
+theorem extremum_map_int (isMax : Bool) (n : Int) (ns : List Int) :
+    extremum (fun x y : Atom => XV.lt (exact x) (exact y)) isMax (.int n) (ns.map Atom.int)
+      = .int (extremum (fun x y => decide (x < y)) isMax n ns) := by
+  induction ns generalizing n with
   | nil => rfl
-  | cons a as ih => simp [Atom.int?, ih]
+  | cons a as ih =>
+    simp only [List.map_cons, extremum]
+    have h1 : XV.lt (exact (.int n)) (exact (.int a)) = decide (n < a) := by simp [exact, XV.lt]
+    have h2 : XV.lt (exact (.int a)) (exact (.int n)) = decide (a < n) := by simp [exact, XV.lt]
+    rw [h1, h2]
+    cases isMax
+    · by_cases h : a < n <;> simp [h, ih]
+    · by_cases h : n < a <;> simp [h, ih]
 
 theorem fnMinMax_ints (n : Int) (ns : List Int) :
     fnMinMax true ((n :: ns).map Atom.int) = .ok [.int (extremum (fun x y => decide (x < y)) true n ns)] := by
-  have h1 : ((n :: ns).map Atom.int).all Atom.isStr = false := by simp [Atom.isStr]
-  have h2 : ((n :: ns).map Atom.int).any Atom.isStr = false := by simp [Atom.isStr]
-  have h3 : ((n :: ns).map Atom.int).all Atom.isBool = false := by simp [Atom.isBool]
-  have h4 : ((n :: ns).map Atom.int).any Atom.isBool = false := by simp [Atom.isBool]
-  have h5 : ((n :: ns).map Atom.int).all Atom.isInt = true := by simp [Atom.isInt]
-  have h6 := filterMap_int_map (n :: ns)
+  rw [fnMinMax_eq]
+  have h0 : outsideAgg ((n :: ns).map Atom.int) = false := by
+    unfold outsideAgg; rw [List.any_eq_false]; intro x hx
+    obtain ⟨k, _, rfl⟩ := List.mem_map.mp hx; simp
+  have h1 : allKind .str ((n :: ns).map Atom.int) = false := by simp [allKind, kind]
+  have h2 : allKind .bool ((n :: ns).map Atom.int) = false := by simp [allKind, kind]
+  have h3 : allKind .num ((n :: ns).map Atom.int) = true := by
+    unfold allKind; rw [List.all_eq_true]; intro x hx
+    obtain ⟨k, _, rfl⟩ := List.mem_map.mp hx; simp [kind]
+  have h4 : anyDouble ((n :: ns).map Atom.int) = false := by
+    unfold anyDouble; rw [List.any_eq_false]; intro x hx
+    obtain ⟨k, _, rfl⟩ := List.mem_map.mp hx; simp [isDouble]
   simp only [List.map_cons] at *
-  simp only [fnMinMax, h1, h2, h3, h4, h5, h6, Bool.false_eq_true, if_false, if_true]
-  exact congrArg (fun m => Except.ok [Atom.int m]) (pyExtremum_eq (fun x y : Int => decide (x < y)) true ns n)
+  simp only [Spec.fnMinMax, h0, h1, h2, h3, h4, Bool.false_eq_true, if_false, if_true, extremum_map_int]
 
 end EPV.Seq
